@@ -24,6 +24,7 @@ import (
 	"verif/harness/gen/gopkgs"
 	"verif/harness/gen/goprog"
 	"verif/harness/gen/tmpl"
+	"verif/harness/gen/tmplset"
 	"verif/harness/lib/ev"
 	"verif/harness/lib/sg"
 )
@@ -51,8 +52,6 @@ type Case struct {
 
 func hostPackage() native.Packages { return gopkgs.HostPackage() }
 
-var reflectTypePair = gopkgs.PairType
-
 // observation is what a build exposes.
 type observation struct {
 	BuildErr string            `json:"build_err"`
@@ -68,27 +67,7 @@ func digest(b []byte) string {
 }
 
 func templateGlobals(c Case) (native.Declarations, map[string]any) {
-	g := native.Declarations{}
-	vars := map[string]any{}
-	for i := 0; i < c.NVars; i++ {
-		g[fmt.Sprintf("v%d", i)] = (*string)(nil)
-		vars[fmt.Sprintf("v%d", i)] = fmt.Sprintf("x%d", i)
-	}
-	n := 3
-	g["gs"] = (*string)(nil)
-	g["gi"] = &n
-	g["gl"] = (*[]int)(nil)
-	g["gm"] = (*map[string]int)(nil)
-	g["add"] = func(a, b int) int { return a + b }
-	g["title"] = "T"
-	g["limit"] = native.UntypedNumericConst("4")
-	g["Pair"] = reflectTypePair
-	g["unused1"] = (*int)(nil)
-	g["unused2"] = func() {}
-	vars["gs"] = "S"
-	vars["gl"] = []int{1, 2, 3}
-	vars["gm"] = map[string]int{"k": 1}
-	return g, vars
+	return tmplset.Globals(c.NVars, 0)
 }
 
 func observe(c Case, run bool) (o observation) {
@@ -413,157 +392,13 @@ func genCase(t *rapid.T) Case {
 		p := goprog.Gen(t, goprog.Off{})
 		return Case{Kind: "program", Shape: "goprog", Files: map[string]string{"go.mod": "module m\n", "main.go": p.Src}, Pkgs: []string{"main"}}
 	case 5, 6, 7:
-		return genTemplateSet(t)
+		ts := tmplset.Gen(t)
+		return Case{Kind: "template", Shape: "template-set", Files: ts.Files, Main: ts.Main, Params: rapid.SampledFrom([]int{-1, 0, 8}).Draw(t, "textlen")}
 	default:
 		format := rapid.SampledFrom([]string{"html", "html", "js", "css", "json", "md", "text"}).Draw(t, "format")
 		d := tmpl.Gen(t, format, 6, tmpl.Off{})
 		return Case{Kind: "template", Shape: "tmpl-" + format, Files: map[string]string{d.File: d.Src}, Main: d.File, NVars: len(d.Holes), Params: rapid.SampledFrom([]int{-1, 0, 8}).Draw(t, "textlen")}
 	}
-}
-
-// genTemplateSet draws a layout, a page extending it, imported macro files and rendered
-// partials that use the declared globals in a random order.
-func genTemplateSet(t *rapid.T) Case {
-	uses := []string{"{{ gs }}", "{{ gi }}", "{{ len(gl) }}", "{{ gm[\"k\"] }}", "{{ add(gi, 1) }}", "{{ title }}", "{{ limit }}", "{{ Pair{A: 1, B: \"b\"}.Sum() }}",
-		"{% for x in gl %}{{ x }},{% end %}", "{% if gi > 2 %}big{% end %}", "{% for i := 0; i < limit; i++ %}{{ i }}{% end %}", "{% gi = gi + 1 %}", "{{ host.Add(gi, 2) }}", "{{ host.Name }}",
-		"<a href=\"/p?{{ gs }}\">l</a>", "<script>var x = {{ gl }};</script>", "<style>a { width: {{ gi }}px }</style>", "{% var loc = gs + title %}{{ loc }}", "{{ macro() string }}{{ gs }}{% end macro %}"}
-	body := func(n int, useHost *bool) string {
-		var b strings.Builder
-		for i := 0; i < n; i++ {
-			u := rapid.SampledFrom(uses).Draw(t, "use")
-			if strings.Contains(u, "host.") {
-				*useHost = true
-			}
-			if strings.HasPrefix(u, "{{ macro()") {
-				u = "{{ gs }}"
-			}
-			b.WriteString(u)
-			b.WriteString(rapid.SampledFrom([]string{" ", "\n", "<b>t</b>", ""}).Draw(t, "sep"))
-		}
-		return b.String()
-	}
-	files := map[string]string{}
-	nlibs := rapid.IntRange(0, 2).Draw(t, "nlibs")
-	nparts := rapid.IntRange(0, 2).Draw(t, "nparts")
-	withLayout := rapid.Bool().Draw(t, "layout")
-	hostIn := map[string]bool{}
-	for i := 0; i < nlibs; i++ {
-		h := false
-		var b strings.Builder
-		nm := rapid.IntRange(1, 3).Draw(t, "nmacros")
-		for j := 0; j < nm; j++ {
-			fmt.Fprintf(&b, "{%% macro L%dM%d(p int) %%}[%s{{ p }}]{%% end %%}\n", i, j, body(rapid.IntRange(0, 3).Draw(t, "mlen"), &h))
-		}
-		if rapid.Bool().Draw(t, "libvar") {
-			fmt.Fprintf(&b, "{%% var L%dV = gi + %d %%}\n", i, i)
-		}
-		src := b.String()
-		if h {
-			src = "{% import \"host\" %}\n" + src
-		}
-		files[fmt.Sprintf("lib%d.html", i)] = src
-		hostIn[fmt.Sprintf("lib%d.html", i)] = h
-	}
-	for i := 0; i < nparts; i++ {
-		h := false
-		src := fmt.Sprintf("<p>part%d %s</p>", i, body(rapid.IntRange(1, 4).Draw(t, "plen"), &h))
-		if h {
-			src = "{% import \"host\" %}" + src
-		}
-		files[fmt.Sprintf("part%d.html", i)] = src
-	}
-	imports := func(b *strings.Builder) []string {
-		var calls []string
-		for i := 0; i < nlibs; i++ {
-			switch rapid.IntRange(0, 3).Draw(t, "impform") {
-			case 0:
-				continue
-			case 1:
-				fmt.Fprintf(b, "{%% import \"lib%d.html\" %%}", i)
-				calls = append(calls, fmt.Sprintf("{{ L%dM0(%d) }}", i, i))
-			case 2:
-				fmt.Fprintf(b, "{%% import l%d \"lib%d.html\" %%}", i, i)
-				calls = append(calls, fmt.Sprintf("{{ l%d.L%dM0(7) }}", i, i))
-			default:
-				fmt.Fprintf(b, "{%% import \"lib%d.html\" for L%dM0 %%}", i, i)
-				calls = append(calls, fmt.Sprintf("{{ L%dM0(gi) }}", i))
-			}
-		}
-		return calls
-	}
-	content := func(calls []string) string {
-		h := false
-		var b strings.Builder
-		n := rapid.IntRange(1, 5).Draw(t, "clen")
-		for i := 0; i < n; i++ {
-			switch rapid.IntRange(0, 3).Draw(t, "ck") {
-			case 0:
-				if len(calls) > 0 {
-					b.WriteString(rapid.SampledFrom(calls).Draw(t, "call"))
-					continue
-				}
-				fallthrough
-			case 1:
-				if nparts > 0 {
-					fmt.Fprintf(&b, "{{ render \"part%d.html\" }}", rapid.IntRange(0, nparts-1).Draw(t, "part"))
-					continue
-				}
-				fallthrough
-			default:
-				b.WriteString(body(2, &h))
-			}
-		}
-		if h {
-			return "{% import \"host\" %}" + b.String()
-		}
-		return b.String()
-	}
-	var page strings.Builder
-	if withLayout {
-		var lay strings.Builder
-		lcalls := imports(&lay)
-		lc := content(lcalls)
-		if strings.HasPrefix(lc, "{% import \"host\" %}") {
-			lay.WriteString("{% import \"host\" %}")
-			lc = strings.TrimPrefix(lc, "{% import \"host\" %}")
-		}
-		fmt.Fprintf(&lay, "<html><head><title>{{ Title() }}</title></head><body>%s{{ Body() }}%s</body></html>", lc, "{{ Side(1) }}")
-		files["layout.html"] = lay.String()
-		page.WriteString("{% extends \"layout.html\" %}")
-		calls := imports(&page)
-		decls := []string{}
-		for _, m := range []string{"Title", "Body", "Side(n int)"} {
-			c := content(calls)
-			if strings.HasPrefix(c, "{% import \"host\" %}") {
-				page.WriteString("{% import \"host\" %}")
-				c = strings.TrimPrefix(c, "{% import \"host\" %}")
-				// a second import of the same package in one file is fine only once
-			}
-			decls = append(decls, fmt.Sprintf("{%% macro %s %%}%s{%% end %%}", m, c))
-		}
-		for _, d := range rapid.Permutation(decls).Draw(t, "macroorder") {
-			page.WriteString(d + "\n")
-		}
-	} else {
-		var head strings.Builder
-		calls := imports(&head)
-		c := content(calls)
-		if strings.HasPrefix(c, "{% import \"host\" %}") {
-			head.WriteString("{% import \"host\" %}")
-			c = strings.TrimPrefix(c, "{% import \"host\" %}")
-		}
-		page.WriteString(head.String())
-		page.WriteString(c)
-	}
-	src := page.String()
-	// at most one host import per file
-	if strings.Count(src, "{% import \"host\" %}") > 1 {
-		first := strings.Index(src, "{% import \"host\" %}")
-		rest := strings.ReplaceAll(src[first+len("{% import \"host\" %}"):], "{% import \"host\" %}", "")
-		src = src[:first+len("{% import \"host\" %}")] + rest
-	}
-	files["index.html"] = src
-	return Case{Kind: "template", Shape: "template-set", Files: files, Main: "index.html", Params: rapid.SampledFrom([]int{-1, 0, 8}).Draw(t, "textlen")}
 }
 
 // TestTriage is a development aid: C30_GREP=<text> prints the generated cases whose build
